@@ -414,6 +414,10 @@ func parseAutoConfigCSR(csr string) (*x509.CertificateRequest, *connect.SpiffeID
 		return nil, nil, fmt.Errorf("CSR SAN does not allow specifying email addresses")
 	}
 
+	if u := x509CSR.URIs[0]; u.User != nil || u.RawQuery != "" || u.ForceQuery || u.Fragment != "" || u.RawFragment != "" {
+		return nil, nil, fmt.Errorf("SPIFFE ID in CSR must not have userinfo, a query or a fragment: %s", u.String())
+	}
+
 	// Parse the SPIFFE ID
 	spiffeID, err := connect.ParseCertURI(x509CSR.URIs[0])
 	if err != nil {
